@@ -99,3 +99,16 @@ package geom
 //@   ensures (hasZ ==> result4 == precZ) && (hasM ==> result5 == precM)
 //@   ensures result6 == hasIDs && !result7 && !result8
 //@   ensures HasZ(result9) == hasZ && HasM(result9) == hasM
+
+// varint and size-header round trips through the real writer and parser
+// routines (inlined here: their bodies, not their thin safety contracts)
+//@ func verifTWKBUvarintRoundTrip
+//@   inlinecallees writeUnsignedVarint parseUnsignedVarint
+//@   ensures result2 == nil && result0 == v && result1 == 0
+//@ func verifTWKBVarintRoundTrip
+//@   inlinecallees writeSignedVarint parseSignedVarint
+//@   ensures result2 == nil && result0 == v && result1 == 0
+//@ func verifTWKBSizeHeaderRoundTrip
+//@   inlinecallees writeSizeHeader parseSize parseUnsignedVarint
+//@   requires 0 <= bboxLen && bboxLen <= 1000000000 && 0 <= contentsLen && contentsLen <= 1000000000
+//@   ensures result2 == nil && result0 == result1
